@@ -3,6 +3,7 @@ CONSTANTS
   MaxRestarts = 3
   MaxReq = 2
   Urls = {"a", "b"}
+  JailChoices = {FALSE, TRUE}
   Statuses = {200}
   KCover = 1
 INVARIANTS
@@ -13,6 +14,7 @@ INVARIANTS
   PathOK
   FirstRequestMisses
   CounterPersists
+  JailPersists
   HitIffStored
   ReportTruthful
   EmitInv
